@@ -261,6 +261,13 @@ func c14Eviction(p *Prog, r *Report) {
 					}
 				case *ssa.Convert:
 					walk(x.X, d+1)
+				case *ssa.Call:
+					// max(parameter, 0) is the same raise-from-below written with the builtin
+					if b, ok := x.Common().Value.(*ssa.Builtin); ok && (b.Name() == "max" || b.Name() == "min") {
+						for _, a := range x.Common().Args {
+							walk(a, d+1)
+						}
+					}
 				}
 			}
 			walk(st.Val, 0)
